@@ -36,7 +36,22 @@ for name in names:
         for chk in m['checks']:
             env = dict(os.environ, VERIF_REPO=wt)
             t0 = time.time()
-            r = subprocess.run([str(ROOT / 'check'), chk, m.get('tier', 'quick')], env=env, capture_output=True, text=True, cwd=str(ROOT))
+            # the run against the mutated tree must not replace the evidence / replays of the real tree
+            ev = ROOT / 'evidence' / f'{chk}.json'
+            saved_ev = ev.read_bytes() if ev.exists() else None
+            rp = ROOT / 'replays' / chk
+            saved_rp = Path(tempfile.mkdtemp(prefix='vf-replays-'))
+            if rp.exists():
+                shutil.copytree(rp, saved_rp / chk)
+            try:
+                r = subprocess.run([str(ROOT / 'check'), chk, m.get('tier', 'quick')], env=env, capture_output=True, text=True, cwd=str(ROOT))
+            finally:
+                if saved_ev is not None:
+                    ev.write_bytes(saved_ev)
+                shutil.rmtree(rp, ignore_errors=True)
+                if (saved_rp / chk).exists():
+                    shutil.copytree(saved_rp / chk, rp)
+                shutil.rmtree(saved_rp, ignore_errors=True)
             dt = time.time() - t0
             fired = r.returncode == 1 and 'VIOLATION' in r.stdout
             print(f'{name} [{chk}]: rc={r.returncode} fired={fired} {dt:.0f}s :: ' + (r.stdout.strip().splitlines()[-1][:200] if r.stdout.strip() else r.stderr[-300:]))
